@@ -58,11 +58,34 @@ type handlerCase struct {
 	Seed    uint64 `json:"seed"`
 }
 
-// nullWriter is the handler's way back to the client; nothing is read from it.
-type nullWriter struct{}
+// frameWriter is the handler's way back to the clients: the first frame of
+// every stream (the ACK or the error) is handed to the waiting client.
+type frameWriter struct {
+	mu    sync.Mutex
+	first map[uint64]chan []byte
+}
 
-func (nullWriter) WriteStreamData(identity.AgentID, uint64, []byte, uint8) error { return nil }
-func (nullWriter) WriteStreamClose(identity.AgentID, uint64) error               { return nil }
+func (w *frameWriter) ch(sid uint64) chan []byte {
+	w.mu.Lock()
+	defer w.mu.Unlock()
+	if w.first == nil {
+		w.first = map[uint64]chan []byte{}
+	}
+	c, ok := w.first[sid]
+	if !ok {
+		c = make(chan []byte, 1)
+		w.first[sid] = c
+	}
+	return c
+}
+func (w *frameWriter) WriteStreamData(_ identity.AgentID, sid uint64, data []byte, _ uint8) error {
+	select {
+	case w.ch(sid) <- append([]byte(nil), data...):
+	default:
+	}
+	return nil
+}
+func (w *frameWriter) WriteStreamClose(identity.AgentID, uint64) error { return nil }
 
 type seqCase struct {
 	Kind  string `json:"kind"`
@@ -331,17 +354,19 @@ func main() {
 		defer os.RemoveAll(dirH)
 		logFile := filepath.Join(dirH, "log")
 		e := shell.NewExecutor(shell.Config{Enabled: true, Whitelist: []string{"*"}, MaxSessions: hc.Max})
-		h := shell.NewHandler(e, nullWriter{}, slog.New(slog.NewTextHandler(io.Discard, nil)))
+		fw := &frameWriter{}
+		h := shell.NewHandler(e, fw, slog.New(slog.NewTextHandler(io.Discard, nil)))
 		peer := identity.AgentID{9}
 		type plan struct {
-			kind  int // 0 logger to completion, 1 sleeper closed early, 2 sleeper closed twice, 3 command that cannot start, 4 garbage metadata
+			kind  int // 0 logger to completion (retries while denied), 1 sleeper closed early, 2 sleeper closed twice, 3 command that cannot start, 4 garbage metadata
 			delay time.Duration
 		}
 		plans := make([]plan, hc.Streams)
 		for i := range plans {
 			plans[i] = plan{kind: r.Pick(0, 0, 0, 1, 2, 3, 4), delay: time.Duration(r.Intn(8)) * time.Millisecond}
 		}
-		var over int64
+		var over, nextSID int64
+		nextSID = 100
 		stop := make(chan struct{})
 		var sampler sync.WaitGroup
 		sampler.Add(1)
@@ -359,6 +384,45 @@ func main() {
 				time.Sleep(200 * time.Microsecond)
 			}
 		}()
+		// one attempt: open a stream, send the metadata frame, report whether the session was acknowledged
+		attempt := func(meta *shell.ShellMeta) (sid uint64, granted bool) {
+			sid = uint64(atomic.AddInt64(&nextSID, 1))
+			priv, pub, err := crypto.GenerateEphemeralKeypair()
+			if err != nil {
+				panic(err)
+			}
+			code, srvPub := h.HandleStreamOpen(peer, sid, sid, false, pub)
+			if code != 0 {
+				return sid, false
+			}
+			shared, err := crypto.ComputeECDH(priv, srvPub)
+			if err != nil {
+				panic(err)
+			}
+			key := crypto.DeriveSessionKey(shared, sid, pub, srvPub, true)
+			var frame []byte
+			if meta != nil {
+				if frame, err = shell.EncodeMeta(meta); err != nil {
+					panic(err)
+				}
+			} else {
+				frame = []byte{0x01, '{', 'x'}
+			}
+			ct, err := key.Encrypt(frame)
+			if err != nil {
+				panic(err)
+			}
+			reply := fw.ch(sid)
+			h.HandleStreamData(peer, sid, ct, 0)
+			select {
+			case f := <-reply:
+				if pt, err := key.Decrypt(f); err == nil && len(pt) > 0 && pt[0] == shell.MsgAck {
+					return sid, true
+				}
+			case <-time.After(30 * time.Second):
+			}
+			return sid, false
+		}
 		var wg sync.WaitGroup
 		for i := range plans {
 			wg.Add(1)
@@ -366,48 +430,21 @@ func main() {
 				defer wg.Done()
 				p := plans[i]
 				time.Sleep(p.delay)
-				sid := uint64(100 + i)
-				priv, pub, err := crypto.GenerateEphemeralKeypair()
-				if err != nil {
-					panic(err)
-				}
-				code, srvPub := h.HandleStreamOpen(peer, sid, sid, false, pub)
-				if code != 0 {
-					return
-				}
-				shared, err := crypto.ComputeECDH(priv, srvPub)
-				if err != nil {
-					panic(err)
-				}
-				key := crypto.DeriveSessionKey(shared, sid, pub, srvPub, true)
-				var meta *shell.ShellMeta
 				switch p.kind {
 				case 0:
-					meta = &shell.ShellMeta{Command: "sh", Args: []string{"-c", "echo S >> " + logFile + "; sleep 0.03; echo E >> " + logFile}}
-				case 1, 2:
-					meta = &shell.ShellMeta{Command: "sleep", Args: []string{"5"}}
-				case 3:
-					meta = &shell.ShellMeta{Command: "/nonexistent/verif-c25-command"}
-				}
-				var frame []byte
-				if meta != nil {
-					frame, err = shell.EncodeMeta(meta)
-					if err != nil {
-						panic(err)
+					meta := &shell.ShellMeta{Command: "sh", Args: []string{"-c", "echo S >> " + logFile + "; sleep 0.03; echo E >> " + logFile}}
+					for try := 0; try < 60; try++ {
+						if _, ok := attempt(meta); ok {
+							return
+						}
+						time.Sleep(time.Millisecond)
 					}
-				} else {
-					frame = []byte{0x01, '{', 'x'}
-				}
-				ct, err := key.Encrypt(frame)
-				if err != nil {
-					panic(err)
-				}
-				h.HandleStreamData(peer, sid, ct, 0)
-				switch p.kind {
 				case 1:
+					sid, _ := attempt(&shell.ShellMeta{Command: "sleep", Args: []string{"5"}})
 					time.Sleep(time.Duration(2+i%5) * time.Millisecond)
 					h.HandleStreamClose(sid)
 				case 2:
+					sid, _ := attempt(&shell.ShellMeta{Command: "sleep", Args: []string{"5"}})
 					time.Sleep(time.Duration(1+i%3) * time.Millisecond)
 					var w2 sync.WaitGroup
 					for k := 0; k < 2; k++ {
@@ -415,6 +452,10 @@ func main() {
 						go func() { defer w2.Done(); h.HandleStreamClose(sid) }()
 					}
 					w2.Wait()
+				case 3:
+					attempt(&shell.ShellMeta{Command: "/nonexistent/verif-c25-command"})
+				default:
+					attempt(nil)
 				}
 			}(i)
 		}
